@@ -67,6 +67,13 @@ pub proof fn lemma_ws_end_stop(s: Seq<u8>, i: int, p: int)
 {
     lemma_ws_run(s, i, p - i);
 }
+pub proof fn lemma_ws_end_idem(s: Seq<u8>, i: int, p: int)
+    requires 0 <= i <= p <= ws_end(s, i), i <= s.len(),
+    ensures ws_end(s, p) == ws_end(s, i),
+{
+    lemma_ws_end_bounds(s, i);
+    lemma_ws_run(s, i, p - i);
+}
 pub proof fn lemma_plain_run(s: Seq<u8>, i: int, k: int)
     requires 0 <= i, 0 <= k, i + k <= s.len(), forall|j: int| i <= j < i + k ==> plain_char(#[trigger] s[j]),
     ensures str_end(s, i) == str_end(s, i + k),
@@ -239,4 +246,21 @@ pub proof fn lemma_members_end_bounds(s: Seq<u8>, i: int)
         let r = ws_end(s, q + 1);
         lemma_members_end_bounds(s, r + 1);
     }
+}
+
+// leading whitespace is part of a value / element position: starting anywhere inside it is the same
+pub proof fn lemma_value_end_ws(s: Seq<u8>, i: int, p: int)
+    requires 0 <= i <= p <= ws_end(s, i), i <= s.len(),
+    ensures value_end(s, i) == value_end(s, p),
+{
+    lemma_ws_end_idem(s, i, p);
+    lemma_ws_end_bounds(s, i);
+}
+pub proof fn lemma_elems_end_ws(s: Seq<u8>, i: int, p: int)
+    requires 0 <= i <= p <= ws_end(s, i), i <= s.len(),
+    ensures elems_end(s, i) == elems_end(s, p),
+{
+    lemma_value_end_ws(s, i, p);
+    lemma_ws_end_bounds(s, i);
+    if value_end(s, p).is_some() { lemma_value_end_bounds(s, p); }
 }
